@@ -134,10 +134,17 @@ const (
 	srcOtherAddr = 2 // 127.0.0.2
 )
 
+// dgram: b = the NTP payload (what the client's NTP stage sees); IP: sent as is from conns[src].
+// SCION: wire = the SCION/UDP packet actually sent, facts = the parsed-packet facts for the
+// model, pathOK = passes every check before the NTP stage (by the harness's own reading).
 type dgram struct {
 	src     int
 	b       []byte
 	genuine bool
+	wire    []byte
+	facts   string
+	pathOK  bool
+	tsOpt   int64 // SCION: receive time supplied in an E2E timestamp option (0: none)
 }
 
 type peer struct {
@@ -269,6 +276,8 @@ type exchResult struct {
 	theta      int64
 	genuineIL  bool
 	deadlineAt time.Time
+	tr         string // "ip" | "scion"
+	hdr        string // transport-specific key=value tokens of the cli.exch op
 }
 
 type callRes struct {
@@ -317,18 +326,54 @@ func errKind(err error) string {
 	return "other"
 }
 
-func ipExchange(c *lib.Ctx, ipc *client.IPClient, cfg exchCfg, sc script) (res exchResult) {
+// liveClient abstracts the two transports for one scripted exchange.
+type liveClient interface {
+	configure(il bool, f *recFilter)
+	getPrev() client.VerifC03Prev
+	setPrev(client.VerifC03Prev)
+	measure(ctx context.Context) (time.Time, time.Duration, error)
+	parse(b []byte) reqInfo
+	transport() (tr, hdr string)
+}
+
+type ipLive struct{ c *client.IPClient }
+
+func (l ipLive) configure(il bool, f *recFilter) {
+	l.c.InterleavedMode = il
+	l.c.Filter = nil
+	if f != nil {
+		l.c.Filter = f
+	}
+}
+func (l ipLive) getPrev() client.VerifC03Prev  { return client.VerifC03PrevIP(l.c) }
+func (l ipLive) setPrev(p client.VerifC03Prev) { client.VerifC03SetPrevIP(l.c, p) }
+func (l ipLive) measure(ctx context.Context) (time.Time, time.Duration, error) {
+	la := &net.UDPAddr{IP: net.IPv4(127, 0, 0, 1).To4()}
+	ra := net.UDPAddrFromAddrPort(thePeer.addr)
+	return client.VerifC03MeasureIP(ctx, l.c, la, ra)
+}
+func (l ipLive) parse(b []byte) reqInfo { return parseReq(b) }
+func (l ipLive) transport() (string, string) {
+	return "ip", fmt.Sprintf("server=%d", thePeer.srcNum(srcServer))
+}
+
+func ipExchange(c *lib.Ctx, ipc *client.IPClient, cfg exchCfg, sc script) exchResult {
+	return exchange(c, ipLive{ipc}, cfg, sc)
+}
+
+func exchange(c *lib.Ctx, lc liveClient, cfg exchCfg, sc script) (res exchResult) {
 	p := thePeer
-	ipc.InterleavedMode = cfg.il
-	ipc.Filter = nil
+	res.tr, res.hdr = lc.transport()
 	if cfg.filter {
 		res.filter = &recFilter{value: 424242}
-		ipc.Filter = res.filter
+		lc.configure(cfg.il, res.filter)
+	} else {
+		lc.configure(cfg.il, nil)
 	}
 	if cfg.setPrev != nil {
-		client.VerifC03SetPrevIP(ipc, *cfg.setPrev)
+		lc.setPrev(*cfg.setPrev)
 	}
-	res.prev0 = client.VerifC03PrevIP(ipc)
+	res.prev0 = lc.getPrev()
 	var ov []time.Time
 	if cfg.setNow != nil {
 		ov = cfg.setNow(res.prev0)
@@ -348,11 +393,7 @@ func ipExchange(c *lib.Ctx, ipc *client.IPClient, cfg exchCfg, sc script) (res e
 		ctx, cancel = context.WithDeadline(ctx, res.deadlineAt)
 	}
 	defer cancel()
-	la := &net.UDPAddr{IP: net.IPv4(127, 0, 0, 1).To4()}
-	ra := net.UDPAddrFromAddrPort(p.addr)
-	done := callClient(func() (time.Time, time.Duration, error) {
-		return client.VerifC03MeasureIP(ctx, ipc, la, ra)
-	})
+	done := callClient(func() (time.Time, time.Duration, error) { return lc.measure(ctx) })
 	buf := make([]byte, 2048)
 	p.conns[0].SetReadDeadline(time.Now().Add(2 * time.Second))
 	n, from, err := p.conns[0].ReadFromUDPAddrPort(buf)
@@ -363,13 +404,17 @@ func ipExchange(c *lib.Ctx, ipc *client.IPClient, cfg exchCfg, sc script) (res e
 		return
 	}
 	R := wallNow().UnixNano()
-	res.ri = parseReq(buf[:n])
+	res.ri = lc.parse(buf[:n])
 	res.ri.from = from
 	res.ri.R = R
 	out, theta, S, gil := sc(&res.ri)
 	res.theta, res.genuineIL = theta, gil
 	for _, d := range out {
-		p.conns[d.src].WriteToUDPAddrPort(d.b, from)
+		if d.wire != nil {
+			p.conns[d.src].WriteToUDPAddrPort(d.wire, from)
+		} else {
+			p.conns[d.src].WriteToUDPAddrPort(d.b, from)
+		}
 	}
 	res.sent = out
 	sentAt := time.Now()
@@ -385,7 +430,7 @@ func ipExchange(c *lib.Ctx, ipc *client.IPClient, cfg exchCfg, sc script) (res e
 		return
 	}
 	res.ts, res.off, res.err, res.panicked = r.ts, r.off, r.err, r.panic
-	res.prev1 = client.VerifC03PrevIP(ipc)
+	res.prev1 = lc.getPrev()
 	rd := clk.readings()
 	if len(rd) == 0 {
 		c.Count("discarded:no-clock-reading")
@@ -423,6 +468,16 @@ func prevStr(p client.VerifC03Prev, reference string) string {
 func evIP(p *peer, sent []dgram, cRx int64, deadlineSet bool) string {
 	var ev []string
 	for _, d := range sent {
+		if d.wire != nil {
+			var lvm, st uint8
+			var org, rx, tx ntp.Time64
+			if len(d.b) >= 48 {
+				lvm, st = d.b[0], d.b[1]
+				org, rx, tx = be64(d.b[24:]), be64(d.b[32:]), be64(d.b[40:])
+			}
+			ev = append(ev, fmt.Sprintf("s:%s:%d:%d:%d:%s:%s:%s:%d:1", d.facts, len(d.b), lvm, st, f64(org), f64(rx), f64(tx), cRx))
+			continue
+		}
 		if len(d.b) > 48 {
 			ev = append(ev, "f:1")
 			continue
@@ -451,7 +506,10 @@ func goClockOffset(t0, t1, t2, t3 int64) (int64, int64) {
 
 // acceptable: the conditions of property C05 evaluated on the bytes the peer crafted.
 func acceptable(p *peer, d dgram, ri reqInfo, prevSRx ntp.Time64, ref int64) bool {
-	if p.srcNum(d.src) != p.srcNum(srcServer) || len(d.b) != 48 {
+	if d.wire == nil && (p.srcNum(d.src) != p.srcNum(srcServer) || len(d.b) != 48) {
+		return false
+	}
+	if d.wire != nil && (!d.pathOK || len(d.b) < 48) {
 		return false
 	}
 	org, rx, tx := be64(d.b[24:]), be64(d.b[32:]), be64(d.b[40:])
@@ -474,9 +532,12 @@ func acceptable(p *peer, d dgram, ri reqInfo, prevSRx ntp.Time64, ref int64) boo
 func recordIP(c *lib.Ctx, tag string, cfg exchCfg, res exchResult) int {
 	p := thePeer
 	reference := p.addr.String()
+	if res.tr == "scion" {
+		reference = scionReference()
+	}
 	ilS, dlS := lib.Bool(cfg.il), lib.Bool(cfg.deadline != 0)
 	// --- request op
-	opReq := fmt.Sprintf("cli.req tr=ip il=%s ref=same prev=%s now=%d", ilS, prevStr(res.prev0, reference), res.now0)
+	opReq := fmt.Sprintf("cli.req tr=%s il=%s ref=same prev=%s now=%d", res.tr, ilS, prevStr(res.prev0, reference), res.now0)
 	var ansReq string
 	if res.ri.interleavedRq {
 		ansReq = fmt.Sprintf("ok il %d %s %s %s", res.ri.lvm, f64(res.ri.org), f64(res.ri.rx), f64(res.ri.tx))
@@ -497,7 +558,7 @@ func recordIP(c *lib.Ctx, tag string, cfg exchCfg, res exchResult) int {
 		cRx := res.ts.UnixNano()
 		// which datagram? the one whose receive field went into prev (il on) / the filter tuple / the first acceptable
 		for i, d := range res.sent {
-			if len(d.b) == 48 && acceptable(p, d, res.ri, res.prev0.SRxTime, res.now0) {
+			if acceptable(p, d, res.ri, res.prev0.SRxTime, res.now0) {
 				idx = i
 				break
 			}
@@ -523,6 +584,9 @@ func recordIP(c *lib.Ctx, tag string, cfg exchCfg, res exchResult) int {
 			t[3] = dec64(res.prev0.CRxTime, res.now0)
 		} else {
 			t[1], t[2], t[3] = dec64(rx, res.now0), dec64(tx, res.now0), cRx
+			if d.tsOpt != 0 && cRx != d.tsOpt {
+				c.Fail("C03:scion-ts-option", "the returned timestamp is not the packet's timestamp option", []string{opReq}, nil)
+			}
 		}
 		// cTxTime1: exact from the filter; from prev (1 ns ambiguity) with interleaved mode; else solved within its bracket
 		switch {
@@ -613,8 +677,12 @@ func recordIP(c *lib.Ctx, tag string, cfg exchCfg, res exchResult) int {
 	if accepted {
 		cRxAll = res.ts.UnixNano()
 	}
-	op := fmt.Sprintf("cli.exch tr=ip il=%s dl=%s filt=%s server=%d ref=same prev=%s now=%d ctx1=%d ev=%s",
-		ilS, dlS, filt, p.srcNum(srcServer), prevStr(res.prev0, reference), res.now0, ctx1,
+	if accepted && idx >= 0 && res.sent[idx].tsOpt != 0 {
+		// the kernel receive time is unobservable when the option overrides it: any value serves
+		cRxAll = res.sent[idx].tsOpt - 1000
+	}
+	op := fmt.Sprintf("cli.exch tr=%s il=%s dl=%s filt=%s %s ref=same prev=%s now=%d ctx1=%d ev=%s",
+		res.tr, ilS, dlS, filt, res.hdr, prevStr(res.prev0, reference), res.now0, ctx1,
 		evIP(p, res.sent, cRxAll, cfg.deadline != 0))
 	var ans string
 	switch {
@@ -622,8 +690,12 @@ func recordIP(c *lib.Ctx, tag string, cfg exchCfg, res exchResult) int {
 		ans = "panic " + res.panicked
 		c.Count(tag + ":exch:panic")
 	case !accepted:
-		ans = "err " + errKind(res.err) + " prev=" + prevStr(res.prev1, reference)
-		c.Count(tag + ":exch:err:" + errKind(res.err))
+		k := errKind(res.err)
+		if k == "other" && res.tr == "scion" {
+			k = "layers" // gopacket's decode errors have no fixed text
+		}
+		ans = "err " + k + " prev=" + prevStr(res.prev1, reference)
+		c.Count(tag + ":exch:err:" + k)
 	default:
 		ans = fmt.Sprintf("ok accept il=%s off=%d ts=%d", lib.Bool(acceptedIL), int64(res.off), res.ts.UnixNano())
 		if cfg.filter {
